@@ -77,6 +77,8 @@ class StubConnection(object):
         self.sent = []          # (seq, step, time, raw bytes, msg object)
         self.taken = []         # messages handed to the application layer (recv_handler took them)
         self.on_send = None
+        self._arrivals = []
+        self._wire = None
 
     # --- the API Worker uses ---------------------------------------------
     def get_message(self):
@@ -108,11 +110,26 @@ class StubConnection(object):
 
     # --- scenario side -----------------------------------------------------
     def arrive(self, raw):
-        """Bytes arrive from the peer: parsed with the real decoder and made
-        available to recv_handler.  Runs in event context."""
+        """Bytes arrive from the peer (event context): handed to the stub's
+        wire thread, which parses them with the real decoder and makes them
+        available to recv_handler."""
+        self._arrivals.append(raw)
+        t = self._wire
+        if t is not None and t.state == "blocked":
+            self.wb.sim.wake(t)
+
+    def _wire_loop(self):
         from bromelia.base import DiameterMessage
-        for m in DiameterMessage.load(raw):
-            self.inbox.put(m)
+        sim = self.wb.sim
+        while True:
+            while self._arrivals:
+                raw = self._arrivals.pop(0)
+                for m in DiameterMessage.load(raw):
+                    self.inbox.put(m)
+            sim.block(("wire", self.index))
+
+    def start_wire(self):
+        self._wire = self.wb.sim.spawn(self._wire_loop, role="W:wire%d" % self.index)
 
 
 class WorldB(object):
@@ -172,6 +189,8 @@ class WorldB(object):
         """What Bromelia._run / Worker.run do once connections are open."""
         th = self.world.threading
         sim = self.sim
+        for st_ in self.stubs:
+            st_.start_wire()
         for i, w in enumerate(self.workers):
             w.is_open.set()
             for nm, fn in (("recv_handler", w.recv_handler), ("send_handler", w.send_handler)):
